@@ -802,14 +802,19 @@ func (e *Engine) ghostCall(c *CallCtx, g string, fn *ssa.Function) *Term {
 			panic("fold: closure must be a literal")
 		}
 		cl := e.closureOf(c.args[1].IVal.Int64())
-		var old *State
-		if c.fr != nil {
-			old = c.fr.oldSt
-		}
-		allOld := c.fr != nil && c.fr.oldSt != nil && (c.fr.allOld || c.fr.oldIns[c.instr])
 		elem := func(k *Term) *Term {
-			// evaluated without the current path condition: the recurrence is recorded globally
-			r, _, _ := e.execFunction(cl.fn, []*Term{k}, cl.bindings, c.rd.clone(), True, c.fr, "", old, allOld)
+			// evaluated without the current path condition: the recurrence is recorded globally.
+			// Cells and boxes created by the clause itself (captured variables) are
+			// visible even when the fold is evaluated in the old state.
+			stE := c.rd.clone()
+			if c.rd != c.st {
+				for name, v := range c.st.comps {
+					if strings.HasPrefix(name, "C:") || strings.HasPrefix(name, "B:") {
+						stE.comps[name] = v
+					}
+				}
+			}
+			r, _, _ := e.execFunction(cl.fn, []*Term{k}, cl.bindings, stE, True, c.fr, "", nil, false)
 			return r
 		}
 		probe := elem(Fresh("foldidx", IntS))
@@ -830,7 +835,9 @@ func (e *Engine) ghostCall(c *CallCtx, g string, fn *ssa.Function) *Term {
 			if i < len(cl.fn.FreeVars) {
 				if pt, ok := cl.fn.FreeVars[i].Type().Underlying().(*types.Pointer); ok && b.Sort == LocS {
 					if _, isStruct := isStructVal(pt.Elem()); !isStruct {
-						b = e.loadPtr(c.rd, pt.Elem(), b)
+						// the cell is local to the clause: it lives in the caller's
+						// current state even when the fold is evaluated in the old state
+						b = e.loadPtr(c.st, pt.Elem(), b)
 					}
 				}
 			}
